@@ -18,8 +18,8 @@ use crate::{EXIT_CONFIG_ERROR, EXIT_SUCCESS};
 
 use super::check_args::{apply_cli_overrides, validate_and_resolve_paths};
 use super::check_baseline_ops::{
-    apply_baseline_comparison, handle_baseline_ratchet, load_baseline, load_baseline_optional,
-    update_baseline_from_results,
+    EvaluatedPaths, apply_baseline_comparison, handle_baseline_ratchet, load_baseline,
+    load_baseline_optional, update_baseline_from_results,
 };
 use super::check_exit::determine_exit_code;
 use super::check_output::{
@@ -297,6 +297,7 @@ pub fn run_check_with_context(opts: &CheckOptions<'_>) -> crate::Result<i32> {
 
     // 5. Run structure checks if enabled (using pre-collected dir_stats from unified scan)
     // Skip in pure incremental mode (--files) since no directory scan was performed
+    let mut checked_dirs: Vec<&PathBuf> = Vec::new();
     if !skip_structure_checks
         && let Some(ref scan_result) = scan_result
         && let Some(ref structure_checker) = ctx.structure_checker
@@ -304,6 +305,7 @@ pub fn run_check_with_context(opts: &CheckOptions<'_>) -> crate::Result<i32> {
     {
         // Use dir_stats collected during unified scan
         let violations = structure_checker.check(&scan_result.dir_stats);
+        checked_dirs.extend(scan_result.dir_stats.keys());
         let structure_results: Vec<_> = violations
             .iter()
             .map(structure_violation_to_check_result)
@@ -336,10 +338,20 @@ pub fn run_check_with_context(opts: &CheckOptions<'_>) -> crate::Result<i32> {
     }
 
     // 7.0.1 Check baseline ratchet (violations should only decrease)
+    let evaluated = EvaluatedPaths {
+        paths: results
+            .iter()
+            .map(CheckResult::path)
+            .chain(checked_dirs.into_iter().map(PathBuf::as_path))
+            .map(|p| p.to_string_lossy().replace('\\', "/"))
+            .collect(),
+        scanned: scan_result.is_some(),
+    };
     let ratchet_failed = handle_baseline_ratchet(
         args,
         config,
         &results,
+        &evaluated,
         &mut baseline_for_ratchet,
         project_root,
         cli.quiet,
